@@ -1126,3 +1126,8 @@ UNIT_META["tree_claim"]["functions"] = UNIT_META["tree_claim"]["functions"] + ["
 UNIT_META["tree_claim"]["assumes"] = [x for x in UNIT_META["tree_claim"]["assumes"] if "the loop of claim_tree_values" not in x] + ["claim_tree_values fragment: the table lock / `self.as_ref(&tables.value)` are the `values` parameter of the wrapper; `Default::default()` of the three maps is the contract new_empty; `for (tier, count) in tier_count` (iteration by value) becomes repeated removal of an arbitrary entry; `values.tables[tier].claim_entries(count)` is a contract returning exactly `count` slots (proved of the real function by unit claim_entries, U73); fewer than 2^64 new nodes per tier"]
 PROPS["C10"]["claim"] = PROPS["C10"]["claim"] + " The InsertTree arm of claim_tree_values as a whole (Verus, fragment): the root is packed in the same format, every tier gets exactly the slots preparation counted before any node is packed (so packing cannot run out of slots or leave one over), a tree is accepted only if every new node's child count fits the count byte."
 PROPS["C10"]["does_not_cover"] = [x for x in PROPS["C10"]["does_not_cover"] if "the loop of claim_tree_values" not in x]
+
+# ---------------------------------------------------------------- U74 extension: init_table_data establishes the mirror invariant the other free-list units assume
+UNIT_META["free_list"]["functions"] = UNIT_META["free_list"]["functions"] + ["table::ValueTable::init_table_data"]
+UNIT_META["free_list"]["assumes"] = UNIT_META["free_list"]["assumes"] + ["init_table_data: TableFile::read_at into the 10-byte cursor is a contract (the cursor holds the bytes stored at the offset; slot i at offset i * entry_size); partial correctness -- a cyclic on-disk list would make the real loop spin (not a claim here); fill mark times entry size fits in u64"]
+PROPS["C14"]["claim"] = PROPS["C14"]["claim"] + " At start-up ValueTable::init_table_data (Verus, any list length) builds the stack so that it mirrors the on-disk free list -- top = list head, every slot links to the one below, every free slot below the fill mark -- which is the invariant claim_entries / next_free / clear_slot assume and keep; a link at or beyond the fill mark is reported as corruption."
